@@ -116,4 +116,12 @@ META.update({
         technique="property-based testing (rapid): interval oracle over generated delay configurations, black-box (listener + timestamps) and through a delay probe; native fuzzing in thorough",
     ),
 })
+META.update({
+    "C14": dict(
+        text="Generated concurrent programs under the Go race detector: random compositions of all eight policy kinds with shared stateful instances, many goroutines running sync / async / cancelled executions with firing timeouts, real hedging and zero-delay retries, more goroutines hammering the standalone APIs, and listeners/functions that read every accessor they are handed. The verdict on data races is the detector's (it depends on happens-before, not on the race manifesting); reports are parsed by the driver, attributed to module frames and de-duplicated by the pair of top module frames; panics crash the test process and a 60 s watchdog with a goroutine dump catches deadlocks. The per-execution semantic properties under concurrency are checked by C02 (shared budget), C04, C05 (linearizability), C06, C09, C15.",
+        design_ref="DESIGN.md section 6, C14",
+        note="Only code paths the generated programs execute are judged. Built with -race (first build ~40 s).",
+        technique="property-based testing (rapid): generated concurrent programs with the Go race detector, a crash detector and a hang watchdog as oracles",
+    ),
+})
 NOT_APPLICABLE = [dict(property_id=p, reason="check not built yet in this session (work in progress; DESIGN.md section 6 describes the planned property-based check)") for p in ALL if p not in META]
